@@ -7,6 +7,14 @@ PKGS = {
 }
 
 PROPS = {
+    "C16": {
+        "harnesses": [
+            {"pkg": "bt", "name": "VH_C16_TxJSON", "quick": {"params": {"IN": 1, "OUT": 1}}, "thorough": {"params": {"IN": 2, "OUT": 2}}},
+            {"pkg": "bt", "name": "VH_C16_TxNodeJSON", "quick": {"params": {"IN": 1, "OUT": 1}}, "thorough": {"params": {"IN": 2, "OUT": 2}}},
+            {"pkg": "bt", "name": "VH_C16_OutputUTXO", "fp_dual": True},
+        ],
+        "assumptions": [],
+    },
     "C19": {
         "harnesses": [
             {"pkg": "interpreter", "name": "VH_C19_Step", "quick": {"params": {"D": 2, "K": 1, "C": 1, "U": 4}}, "thorough": {"params": {"D": 3, "K": 2, "C": 2, "U": 6}}},
@@ -104,6 +112,7 @@ PROPS = {
             {"pkg": "bt", "name": "VH_C09_InputOutput", "quick": {"params": {"N": 12}}, "thorough": {"params": {"N": 48}}},
             {"pkg": "bt", "name": "VH_C09_Crafted", "quick": {"params": {"T": 2}}, "thorough": {"params": {"T": 6}}},
             {"pkg": "bt", "name": "VH_C09_CraftedTxs", "quick": {"params": {"T": 4}}, "thorough": {"params": {"T": 8}}},
+            {"pkg": "bt", "name": "VH_C09_NodeJSONDocs"},
         ],
         "assumptions": [],
         "bounds": {"quick": "", "thorough": ""},
